@@ -11,9 +11,9 @@ line protocol (one line in, one line out):
   stream <hasFlush> <lineBufferingAttr> <writeThrough> <lineBuffered> <K> <call>*   stream sink over a user stream
                                                    (what it exposes; how its file really buffers); dies after K calls
         -> ok <pending> <os>
-  exitf <enq> <rot> <comp> <ret> <Q> <call>*       one file handler, the last Q calls still queued at interpreter exit
+  exitf <enq> <owner> <rot> <comp> <ret> <Q> <call>*       one file handler, the last Q calls still queued at interpreter exit
         -> ok <registered> <stopped> <hung> <open> <compressions> <retentions> <pending> <file>*
-  exits <enq> <flushable> <stoppable> <Q> <call>*  one stream handler
+  exits <enq> <owner> <flushable> <stoppable> <Q> <call>*  one stream handler
         -> ok <registered> <stopped> <hung> <stops> <pending> <os>
   text <terminator: f|s> <call>                    -> ok <emitted text>
 
@@ -66,12 +66,12 @@ def step (line : String) : String :=
       let s := ((calls.take k).map (·.2)).foldl Stream.sinkWrite s0
       "ok " ++ encTok s.file.pending ++ " " ++ encTok s.file.crash
     | _, _, _, _, _, _ => "bad-op"
-  | "exitf" :: enq :: rot :: comp :: ret :: q :: rest =>
-    match bit enq, bit rot, bit comp, bit ret, q.toNat?, parseCalls Gen.fileTerminator rest with
-    | some enq, some rot, some comp, some ret, some q, some calls =>
+  | "exitf" :: enq :: own :: rot :: comp :: ret :: q :: rest =>
+    match bit enq, bit own, bit rot, bit comp, bit ret, q.toNat?, parseCalls Gen.fileTerminator rest with
+    | some enq, some own, some rot, some comp, some ret, some q, some calls =>
       let q := if enq then min q calls.length else 0
       let direct := calls.take (calls.length - q)
-      let h : Handler := { enqueue := enq, owner := true, queue := calls.drop (calls.length - q),
+      let h : Handler := { enqueue := enq, owner := own, queue := calls.drop (calls.length - q),
                            sink := direct.foldl Sink.write (.file (FileSink.new none rot comp ret)),
                            stopped := false, sentinel := false, joined := false, hung := false }
       let lg := interpreterExit { handlers := [h], removed := [] }
@@ -84,14 +84,14 @@ def step (line : String) : String :=
           b01 f.file.isSome ++ " " ++ toString f.compressions ++ " " ++ toString f.retentions ++ " " ++
           encTok f.pendingText ++ " " ++ encList f.disk
       | _ => "bad-op"
-    | _, _, _, _, _, _ => "bad-op"
-  | "exits" :: enq :: fl :: stoppable :: q :: rest =>
-    match bit enq, bit fl, bit stoppable, q.toNat?, parseCalls Gen.streamTerminator rest with
-    | some enq, some fl, some stoppable, some q, some calls =>
+    | _, _, _, _, _, _, _ => "bad-op"
+  | "exits" :: enq :: own :: fl :: stoppable :: q :: rest =>
+    match bit enq, bit own, bit fl, bit stoppable, q.toNat?, parseCalls Gen.streamTerminator rest with
+    | some enq, some own, some fl, some stoppable, some q, some calls =>
       let q := if enq then min q calls.length else 0
       let direct := calls.take (calls.length - q)
       let s0 : Stream := StreamSink.new { os := [], pending := [], lineBuffering := false, closed := false } fl false false
-      let h : Handler := { enqueue := enq, owner := true, queue := calls.drop (calls.length - q),
+      let h : Handler := { enqueue := enq, owner := own, queue := calls.drop (calls.length - q),
                            sink := direct.foldl Sink.write (.stream s0 stoppable 0),
                            stopped := false, sentinel := false, joined := false, hung := false }
       let lg := interpreterExit { handlers := [h], removed := [] }
@@ -103,7 +103,7 @@ def step (line : String) : String :=
       | .stream s _ n => "ok " ++ toString lg.handlers.length ++ " " ++ b01 h'.stopped ++ " " ++ b01 h'.hung ++ " " ++
           toString n ++ " " ++ encTok s.file.pending ++ " " ++ encTok s.file.os
       | _ => "bad-op"
-    | _, _, _, _, _ => "bad-op"
+    | _, _, _, _, _, _ => "bad-op"
   | ["text", t, c] =>
     let term := if t = "f" then some Gen.fileTerminator else if t = "s" then some Gen.streamTerminator else none
     match term with
